@@ -1884,6 +1884,11 @@ def slice_programs(slice_name, tier, master_seed, base_id):
                 if op in ('fold', 'try_fold'):
                     # second operand of fold / try_fold captured as well
                     add(p, fam, 'sk-cap2-' + op, require='}, {')
+                    # ... and ONLY the second operand captured (the plain first operand must stay where it is written)
+                    import re as _re
+                    p2 = dict(p)
+                    p2['captures'] = 0.5
+                    add(p2, fam, 'sk-cap2only-' + op, require=(lambda text: _re.search(r'\^@ w::init::<w::Tok>\(\d+\), \{', text) is not None))
     if slice_name == 'ops':
         # skeleton: every operator look-alike once after a complete operand prefix, outside and inside a wrapper
         for fam in [('sync', False), ('sync', True)]:
